@@ -136,6 +136,9 @@ CONTROLS = [
         '    let (s, b) = many0(is_not("\\""))(s)?;\n    let (s, c) = tag("\\"")(s)?;\n\n    let mut ret = None;\n    for x in b {\n        ret = if let Some(ret) = ret {\n            Some(concat(ret, x).unwrap())\n        } else {\n            Some(x)\n        };\n    }\n\n    let a = if let Some(b) = ret {\n        let a = concat(a, b).unwrap();\n        concat(a, c).unwrap()\n    } else {\n        concat(a, c).unwrap()\n    };\n    Ok((s, a))', 1)]),
     ('g17-lone-backslash-alternative', 'G17', 'syn', 'string_literal_impl:escape-not-paired', [(PARSER + 'expressions/strings.rs',
         '        map(pair(tag("\\\\"), take(1usize)), |(x, y)| {\n            concat(x, y).unwrap()\n        }),', '        tag("\\\\\\""),\n        tag("\\\\"),', 1)]),
+    ('g18-run-swallows-quotes', 'G18', 'syn', 'sibling-start-swallowed', [(CD, 'is_not("`/\\"\\\\"),', 'is_not("`/\\\\"),', 1)]),
+    ('g18-run-stops-at-dollar', 'G18', 'syn', 'stop-without-sibling', [(CD, 'is_not("`/\\"\\\\"),', 'is_not("`/\\"\\\\$"),', 1)]),
+    ('g18-slash-before-star-taken', 'G18', 'syn', 'special-too-wide', [(CD, 'peek(not(alt((tag("/"), tag("*")))))', 'peek(not(alt((tag("/"), tag("/")))))', 1)]),
     ('s1-version-stack-not-reset', 'S1', 'mir', 'not-reset:CURRENT_VERSION', [(PARSER + 'lib.rs', '    clear_directive();\n    clear_version();\n}', '    clear_directive();\n}', 1)]),
     ('s2-grammar-function-exported', 'S2', 'mir', 'source_text', [(PARSER + 'source_text/system_verilog_source_text.rs', 'pub(crate) fn source_text(s: Span)', 'pub fn source_text(s: Span)', 1)]),
     ('s3-scope-leak-on-error-path', 'S3', 'mir', 'text_macro_usage:unbalanced', [(CD,
